@@ -121,7 +121,7 @@ EXCEPTIONS = [
     dict(fn="utils::greatest_lower_bound", what="Bounds", desc="PtrMetadata(arg1)[try(Iterator::next(var:Rev<Range<usize>>))]", count=1,
          reason="i ranges over 0..idx where idx is the Ok index of binary_search (< len)", requires=["C04.R4"]),
     # ---- vlq -----------------------------------------------------------------------------------------------------------
-    dict(fn="vlq::parse_vlq_segment_into", what="Overflow:Add:i64", desc="var:i64,try(Option::ok_or(i64::checked_shl(BitAnd(31,*),var:u32),Error::VlqOverflow{}))", count=1,
+    dict(fn="vlq::parse_vlq_segment_into", what="Overflow:Add:i64", desc="var:i64,try(i64::checked_shl(BitAnd(31,*),var:u32))", count=1,
          reason="cur < 2^shift is an invariant of the accumulation; with shift <= 60 the addend (val << shift mod 2^64) is either negative (bit 63 set) or < 7 * 2^60, so cur + addend stays within i64",
          requires=["C11.R2r"]),
     dict(fn="vlq::parse_vlq_segment_into", what="OverflowNeg:i64", desc="var:i64", count=1,
